@@ -1,5 +1,6 @@
 import Got.Model.Wheel
 import Got.Lemmas.Wheel
+import Got.Lemmas.WheelAst
 /-
 C03 — Wheel timers fire exactly once, never late and less than one step early.
 
@@ -263,3 +264,76 @@ theorem C03_norecheck_counterexample :
     let s := run noRecheck (init 3 10) [.invoke 0 0, .req 0, .tick, .tick, .tick, .tick, .req 0]
     s.done = [{ tid := 0, k := 0, invCls := 0, invAdv := 0, retAdv := 1, retCls := 1, chan := 3 }] ∧ s.due 3 = 4 := by
   decide
+
+/-! ### the translated source (translator tie for the race part)
+
+`Got.Generated.AstLoomWheel.fetchWheelData` / `onTicker` are re-translated from /repo/loom/wheel.go on every run into the
+atomic-instruction IR of Got/Model/AtomicIR.lean (Go `int`/`time.Duration` as unbounded integers; `&wheel.position`,
+`&wheel.channels[i]` with bounds check, `atomic.StoreInt64`, `atomic.SwapPointer` with a fresh `wheelData`, `close`,
+`panic`; the immutable fields `maxTimeout`, `step`, `bucketsSize` are leading parameters).  `Got.Model.WheelGen` is the
+generated LTS (thread 0 = the ticker goroutine, requester `t` = thread `t+1`; `gstep`, `genRun`).  `RelW g s aux`
+(Got/Lemmas/WheelAst.lean): same shared memory (position, slots, allocator, closed bits, double-close flag), the ticker and
+every requester are in the IR configuration that corresponds to their hand-written pc and locals, and the channels the
+generated requests have returned are exactly the `done` records.  Not translated: NewWheel (the initial state `genInit`),
+goLoop, and `WheelTimer.Reset`'s choice of the interval (`resetInterval`). -/
+
+/-- The translator accepted both functions, and reads the receiver's immutable fields in the order the mapping assumes. -/
+theorem C03_translation_in_fragment :
+    Got.Generated.AstLoomWheel.fetchWheelDataNote = "ok" ∧ Got.Generated.AstLoomWheel.onTickerNote = "ok" ∧
+    Got.Generated.AstLoomWheel.fetchWheelDataCfg = ["maxTimeout", "step", "bucketsSize"] ∧
+    Got.Generated.AstLoomWheel.onTickerCfg = ["bucketsSize"] := by decide
+
+/-- **Translator tie, one step.** In every state with `0 < n`, `0 < step` and a valid ticker index (all reachable states),
+    every action of the hand-written model — a ticker access, an invocation with its range check and index computation, a
+    requester access — is the corresponding action of the LTS generated from the source: corresponding states stay
+    corresponding. -/
+theorem C03_translated_source_step : ∀ (g : Got.Model.AtomicIR.GState) (s : State) (aux : Nat → Int) (a : Act),
+    Got.Lemmas.WheelAst.RelW g s aux → Got.Lemmas.WheelAst.Good s →
+    Got.Lemmas.WheelAst.RelW (Got.Model.WheelGen.gstep s.n s.step g a) (step fixed s a)
+      (Got.Lemmas.WheelAst.auxStep s aux a) :=
+  Got.Lemmas.WheelAst.simW_step
+
+/-- hence every run from NewWheel(step, n). -/
+theorem C03_translated_source_run (n stepNs : Nat) (hn : 0 < n) (hs : 0 < stepNs) (acts : List Act) :
+    ∃ aux, Got.Lemmas.WheelAst.RelW (Got.Model.WheelGen.genRun n stepNs acts) (run fixed (init n stepNs) acts) aux :=
+  Got.Lemmas.WheelAst.genRun_rel n stepNs hn hs acts
+
+/-- **Channels are closed once, for the translated source**: in every run of the generated LTS no channel is closed twice,
+    and channel `c` is closed exactly when the tick that is due to close it (`c + 1`) is complete. -/
+theorem C03_translated_source_closed_once (n stepNs : Nat) (hn : 0 < n) (hs : 0 < stepNs) (acts : List Act) :
+    let g := Got.Model.WheelGen.genRun n stepNs acts
+    let s := run fixed (init n stepNs) acts
+    g.mem.dbl = false ∧ ∀ c, g.mem.closed c = decide (s.due c ≤ s.cls) := by
+  intro g s
+  obtain ⟨aux, hr⟩ := Got.Lemmas.WheelAst.genRun_rel n stepNs hn hs acts
+  have h := C03_closed_once n stepNs hn acts
+  refine ⟨?_, fun c => ?_⟩
+  · show g.mem.dbl = false
+    rw [hr.mem]; exact h.1
+  · show g.mem.closed c = _
+    rw [hr.mem]
+    show ((run fixed (init n stepNs) acts).closedBy c).isSome = _
+    rw [h.2 c]
+    by_cases hd : s.due c ≤ s.cls <;> simp [s, hd]
+
+/-- **The tick that releases a timer, for the translated source**: every channel `c` that a request of thread `t` returned
+    in the generated LTS is the channel of a `done` record of the model, so it is closed by tick `L + k + 1` for an `L`
+    between the ticks complete at the invocation and the ticks started at the return (`C03_fire_tick`). -/
+theorem C03_translated_source_fire_tick (n stepNs : Nat) (hn : 0 < n) (hs : 0 < stepNs) (acts : List Act) (t c : Nat)
+    (hret : (t, c) ∈ Got.Model.WheelGen.returned (Got.Model.WheelGen.genRun n stepNs acts)) :
+    ∃ r ∈ (run fixed (init n stepNs) acts).done, r.tid = t ∧ r.chan = c ∧
+      ∃ L, r.invCls ≤ L ∧ L ≤ r.retAdv ∧ (run fixed (init n stepNs) acts).due c = L + r.k + 1 := by
+  obtain ⟨aux, hr⟩ := Got.Lemmas.WheelAst.genRun_rel n stepNs hn hs acts
+  rw [hr.ret] at hret
+  obtain ⟨r, hrm, hre⟩ := List.mem_map.1 hret
+  have hrd : r ∈ (run fixed (init n stepNs) acts).done := List.mem_reverse.1 hrm
+  obtain ⟨L, h1, h2, h3, _⟩ := C03_fire_tick n stepNs hn acts r hrd
+  have e1 : r.tid = t := congrArg Prod.fst hre
+  have e2 : r.chan = c := congrArg Prod.snd hre
+  exact ⟨r, hrd, e1, e2, L, h1, h2, by rw [← e2]; exact h3⟩
+
+/-- non-vacuity: the generated LTS really runs — the overlapping request of the `C03_fire_tick` example (retry forced by
+    the re-check) returns channel 1 to requester 7 in the LTS generated from the source. -/
+example :
+    Got.Model.WheelGen.returned (Got.Model.WheelGen.genRun 3 10
+      [.invoke 7 0, .req 7, .tick, .tick, .tick, .req 7, .req 7, .req 7, .req 7, .req 7]) = [(7, 1)] := by decide
